@@ -721,6 +721,48 @@ def alias_spellings(sym):
     return out
 
 
+MODSELF_DIMS = ["length", "time", "mass", "temperature", "velocity", "energy", "magnetic_field_cgs", "magnetic_field_mks", "charge_cgs", "charge_mks",
+                "current_cgs", "current_mks", "electric_potential_cgs", "electric_potential_mks", "resistance_cgs", "resistance_mks", "angle", "dimensionless"]
+
+
+def part_modself_dims(ctx, shard):
+    """modify(sym, <quantity written in sym itself>) for a user symbol of every kind of dimension - the electromagnetic
+    ones work the new value out through a branch of their own: afterwards the string, its compounds and a prefixed
+    form resolve to the table's new row, cold and after earlier uses"""
+    for dimname in shard:
+        dim = getattr(udims, dimname)
+        for warm, factor, via in itertools.product((False, True), (3.0, 0.25), ("quantity", "array-element", "product")):
+            world.reset_world()
+            r = UnitRegistry()
+            r.add("zork", 0.5, dim, prefixable=True)
+            if warm:
+                Unit("zork", registry=r), Unit("zork*s", registry=r), Unit("kzork", registry=r)
+            ctx.count("evaluations")
+            try:
+                b = unyt.unyt_quantity(1.0, "zork", registry=r)
+                val = {"quantity": lambda: factor * b, "array-element": lambda: (unyt.unyt_array([factor, 1.0], "zork", registry=r))[0], "product": lambda: b * factor}[via]()
+                r.modify("zork", val)
+            except Exception as e:  # noqa: BLE001
+                ctx.count("modself_refused:" + type(e).__name__)
+                continue
+            ctx.decided(("modself-dims", dimname, warm, factor, via))
+            row = float(r.lut["zork"][0])
+            case = {"part": "modself-dims", "dim": dimname, "warm": warm, "factor": factor, "via": via}
+            base = f"C12|modself-dims|dim={'em' if ('_cgs' in dimname or '_mks' in dimname) else 'plain'}|warm={int(warm)}"
+            if abs(row / (0.5 * factor) - 1.0) > 1e-12:
+                ctx.violation(base + "|mode=table-row-is-not-the-quantity's-size", case, 0.5 * factor, row)
+                continue
+            for sstr, want in (("zork", row), ("zork*s", row), ("zork**2", row * row), ("1/zork", 1.0 / row)):
+                try:
+                    got = float(Unit(sstr, registry=r).base_value)
+                except Exception as e:  # noqa: BLE001
+                    ctx.violation(base + f"|mode=string-does-not-resolve:{type(e).__name__}", dict(case, string=sstr), want, None)
+                    continue
+                if abs(got / want - 1.0) > 1e-12:
+                    ctx.violation(base + "|mode=string-resolves-with-the-old-definition", dict(case, string=sstr), want, got)
+    world.reset_world()
+
+
 def part_alias_edits(ctx, shard):
     """modify / remove / re-add of a BUILT-IN symbol in a custom registry: every spelling of it (symbol, listed aliases, prefixed
     and word-prefixed forms, inside compounds) follows, whether or not it was used before the edit."""
@@ -834,6 +876,7 @@ def run(ctx):
     from mc import harness as _h
 
     _h.pmap(ctx, part_alias_edits, [[x] for x in ALIAS_SYMS])
+    _h.pmap(ctx, part_modself_dims, [[x] for x in MODSELF_DIMS])
     cov = dict(stats)
     cov["alias_edit_symbols"] = ALIAS_SYMS
     cov.update({k + "_populated_start": v for k, v in stats2.items()})
@@ -870,6 +913,10 @@ def replay(case):
     if case.get("part") == "alias-edit":
         ctx = harness.Ctx(PROPERTY, "quick", 0)
         part_alias_edits(ctx, [case["sym"]])
+        return [(k, v) for k, v in ctx.violations.items()]
+    if case.get("part") == "modself-dims":
+        ctx = harness.Ctx(PROPERTY, "quick", 0)
+        part_modself_dims(ctx, [case["dim"]])
         return [(k, v) for k, v in ctx.violations.items()]
     hist = tuple(tuple(e) for e in case["history"])
     system = System(EDITS_THOROUGH, SEEDS_THOROUGH, prefix=tuple(tuple(e) for e in case.get("prefix", ())))
